@@ -90,7 +90,7 @@ def cases(tier, seed):
                     use = [pats[0]] if ci % 2 else [pats[ci % len(pats)]]
                 for pat in use:
                     cs.append({'gen': 'tt', 'N': N, 'R': gens.rank_profile(rng, d, 'rand', 3), 'idx': with_nones(list(combo), pat),
-                               'dtype': ['f64', 'f64', 'f32', 'c128'][ci % 4], 'vals': 'int' if ci % 5 else 'gauss'})
+                               'dtype': ['f64', 'f64', 'f32', 'c128', 'c64'][ci % 5], 'vals': 'int' if ci % 5 else 'gauss'})
             # Ellipsis forms: leading / trailing with k explicit positions
             for k in range(0, d + 1):
                 for rep in range(2 if not thorough else 8):
@@ -135,7 +135,7 @@ def cases(tier, seed):
         d = rng.randint(1, 4)
         N = [rng.choice((1, 2, 3, 4)) for _ in range(d)]
         cs.append({'gen': 'mask', 'N': N, 'R': gens.rank_profile(rng, d, 'rand', 3), 'Mrows': [1, 2, 7, 1, 30][i % 5], 'exhaustive': i % 7 == 0,
-                   'dtype': ['f64', 'f32', 'c128'][i % 3], 'vals': 'int'})
+                   'dtype': ['f64', 'f32', 'c128', 'c64'][i % 4], 'vals': 'int'})
     # long index lists (a list evaluated in blocks must still return every row): lengths around powers of two and well beyond them
     for i, m in enumerate([1000, 4097, 16385, 20000, 40001, 70001] * (1 if not thorough else 6)):
         d = rng.randint(2, 4)
